@@ -216,3 +216,21 @@ MANIFEST_TEXT["C13"] = {
     "text": "IssueRefuse is the first stage of the specified issuer: HasReserved(U) => refused and nothing reaches the wire (Inv_C13), otherwise issued. TLC enumerates the planting "
             "positions of the bounded universe; each behaviour and random planted trees are executed on the real issuer and judged by TLC (issue.refuse.reserved, issue.accept, hist.expect).",
     "note": _NOTE, "technique": "TLA+ bounded model checking (TLC) + scenario replay + trace validation"}
+
+PLANS["C15"] = P(
+    "model_checking",
+    ["pair.present", "pair.present.st", "present.ok", "present.exact", "holder.new", "verify.accept", "verify.view", "verify.genuine", "scn.expect.claims", "scn.expect.reject", "scn.model.agrees"],
+    [{"module": "MC_narrow", "quick": "MC_narrow_quick.cfg", "thorough": "MC_narrow.cfg", "timeout": {"quick": 300, "thorough": 3000}}],
+    [{"driver": "replay", "scn": "MC_narrow", "args": {"n": 500, "matrix": 1}}],
+    [{"driver": "replay", "scn": "MC_narrow", "args": {"n": 20000, "matrix": 1}}],
+    required={"pair.present": 500, "present.exact": 1000, "holder.new": 1000, "scn.expect.claims": 300},
+    nontrivial_event="Present",
+    rule="cases = narrowing chains D1 >= D2 >= .. (quick: up to 3 narrowing steps over all trees of a small universe with arrays of arrays; thorough: all pairs over the larger universe) "
+         "generated by MC_narrow; each step feeds the previous presentation into a NEW real holder and is paired with the same selection made directly from the issued SD-JWT "
+         "(pair.present: equal disclosure sets); the final presentation is verified in both serializations against View(at, last selection); distinct = distinct chains",
+    assumptions=_A,
+)
+MANIFEST_TEXT["C15"] = {
+    "text": "Narrow is an action of the specification (a new holder that knows only the presented disclosures applies SelH again); TLC checks Inv_C15 (the chain's result equals the direct "
+            "selection from the issued SD-JWT) and Inv_C01 on all chains of the bounded universe. Chains are replayed on real holders, each step paired with the direct selection, and validated by TLC.",
+    "note": _NOTE, "technique": "TLA+ bounded model checking (TLC) + scenario replay + trace validation of paired presentations"}
